@@ -86,7 +86,8 @@ theorem C12_roundtrip (fs : List Pickle.Frame) (h : Pickle.WellFormed fs) : Pick
 
 example : Pickle.WellFormed [⟨128, [5]⟩, ⟨140, [1, 2, 3]⟩] := by
   intro f hf; simp at hf; rcases hf with rfl | rfl <;> decide
-example : Pickle.StrictPrefix [128, 1, 5, 140, 3, 1] (Pickle.encode [⟨128, [5]⟩, ⟨140, [1, 2, 3]⟩]) := by decide
+example : Pickle.StrictPrefix [128, 1, 5, 140, 3, 1] (Pickle.encode [⟨128, [5]⟩, ⟨140, [1, 2, 3]⟩]) :=
+  ⟨by decide, by decide⟩
 
 /-- `load_result` in the model: a file that is absent or a strict prefix gives `None`, a complete one its value;
     `Job.result` never yields a value from an incomplete file -/
